@@ -54,7 +54,12 @@ func Arithm(cfg *Config, expr syntax.ArithmExpr) (int, error) {
 		switch expr.Op {
 		case syntax.Inc, syntax.Dec:
 			name := expr.X.(*syntax.Word).Lit()
-			old := atoi(cfg.envGet(name))
+			// The current value may be another variable's name or an expression.
+			old_, err := Arithm(cfg, expr.X)
+			if err != nil {
+				return 0, err
+			}
+			old := int64(old_)
 			val := old
 			if expr.Op == syntax.Inc {
 				val++
@@ -239,7 +244,15 @@ func atoiLargeBase(s string, base int64) int64 {
 
 func (cfg *Config) assgnArit(b *syntax.BinaryArithm) (int, error) {
 	name := b.X.(*syntax.Word).Lit()
-	val := atoi(cfg.envGet(name))
+	var val int64
+	if b.Op != syntax.Assgn {
+		// The current value may be another variable's name or an expression.
+		old, err := Arithm(cfg, b.X)
+		if err != nil {
+			return 0, err
+		}
+		val = int64(old)
+	}
 	arg_, err := Arithm(cfg, b.Y)
 	if err != nil {
 		return 0, err
